@@ -60,6 +60,43 @@ func checkRetained(ctx *pbt.Ctx, c RetainedCase) error {
 			return fmt.Errorf("the signature hash returned by call %d of %d (input %d, type %#x) no longer is the specified one after the later calls: got %x want %x", i+1, len(ks), k.idx, k.ht, k.hash, k.wantHash)
 		}
 	}
+	// what was returned is the caller's: written over to the end of its capacity, the same requests
+	// on the same object must still be answered as specified (the bytes are put back afterwards, so
+	// that a library that shares them is reported here and not by some later case)
+	var saved [][]byte
+	for _, k := range ks {
+		for _, b := range [][]byte{k.pre, k.hash} {
+			full := b[:cap(b)]
+			saved = append(saved, append([]byte{}, full...))
+			for j := range full {
+				full[j] ^= 0x5a
+			}
+		}
+	}
+	var again error
+	for i, k := range ks {
+		var pre []byte
+		if legacyEdits {
+			pre, _ = tx.CalcInputPreimageLegacy(uint32(k.idx), sighash.Flag(k.ht))
+		} else {
+			pre, _ = tx.CalcInputPreimage(uint32(k.idx), sighash.Flag(k.ht))
+		}
+		h, _ := tx.CalcInputSignatureHash(uint32(k.idx), sighash.Flag(k.ht))
+		if !bytes.Equal(pre, k.wantPre) || !bytes.Equal(h, k.wantHash) {
+			again = fmt.Errorf("after the caller wrote over the slices returned earlier, request %d of %d (input %d, type %#x) is answered differently: preimage ok=%v, hash %x want %x", i+1, len(ks), k.idx, k.ht, bytes.Equal(pre, k.wantPre), h, k.wantHash)
+			break
+		}
+	}
+	n := 0
+	for _, k := range ks {
+		for _, b := range [][]byte{k.pre, k.hash} {
+			copy(b[:cap(b)], saved[n])
+			n++
+		}
+	}
+	if again != nil {
+		return again
+	}
 	ctx.Labelf("calls=%d", len(ks))
 	if len(ks) >= 2 {
 		ctx.NonTrivial()
